@@ -24,7 +24,7 @@ import copy
 import os
 
 from ..model import AnalysisError, Func, Model
-from ..refcmp import compare_with_reference, evaluate
+from ..refcmp import compare_with_reference, evaluate, load_reference, run_table
 from ..report import Report
 from ..setalg import SetAlg
 from ..symeval import Evaluator, Path
@@ -41,17 +41,6 @@ EVT = ("list", ("tuple", V, None))
 VSET = ("set", V)
 SETS = ("set", ("frozenset", V))
 DICT = ("dict", None, None)
-
-
-def load_reference(model: Model, name: str, filename: str) -> None:
-    path = os.path.join(os.path.dirname(os.path.dirname(os.path.abspath(__file__))), "refs", filename)
-    with open(path, encoding="utf-8") as fh:
-        src = fh.read()
-    m = model.add_reference_module(name, src)
-    # every repository name the reference builds on must still exist -- otherwise the anchor vanished (analysis broken, not a violation)
-    for local, target in m.imports.items():
-        if target.startswith("y0.") and model.resolve_qualified(target) is None:
-            raise AnalysisError(f"anchor vanished: the reference definitions use {target}, which the repository no longer defines")
 
 
 def bad_name(p: Path) -> bool:
@@ -140,18 +129,7 @@ def run(model: Model, rep: Report, tier: str) -> None:
     rep.floors = {"R19.1": 6, "R19.2": 3, "R19.3": 4, "R19.4": 12, "R19.5": 5}
     load_reference(model, REF, "c19_ref.py")
     sa = SetAlg(rewriter(graph_rewrite))
-    for rule, impl, ref, types, prims, role, words in TABLE:
-        f = model.func(impl)
-        ignore = impl.endswith(".simplify")
-        fobj, verdict, detail, sample = compare_with_reference(model, impl, f"{REF}.{ref}", types, mk(model, prims), sa, infeasible=bad_name, ignore_raises=ignore)
-        sample["definition"] = words
-        cons = construct(f, role)
-        if verdict == "PROVEN":
-            rep.proven(rule, cons, loc=loc(f), sample=sample)
-        elif verdict == "REFUTED":
-            rep.refuted(rule, cons, f"deviates from the definition ({words}): {short(detail, 900)}", loc(f), sample=sample)
-        else:
-            rep.unknown(rule, cons, detail, loc(f))
+    run_table(model, rep, TABLE, REF, mk, sa, infeasible=bad_name, construct=construct, loc=loc, ignore_raises_for={f"{API}.simplify"})
     r19_1(model, rep)
     r19_merges(model, rep, sa)
     r19_3(model, rep)
